@@ -13,7 +13,7 @@
    tie is sampled (harness/props/C04.py) and, on the pinned tree, exposes
    genuine disagreements of the real engine (notes/C04.md). *)
 From Coq Require Import List Arith Bool QArith.
-From PL.C03 Require Import ModelTabling ProofsTabling.
+From PL.C03 Require Import ModelTabling ProofsTabling ProofsTermination.
 Import ListNotations.
 Local Close Scope Q_scope.
 Local Open Scope nat_scope.
@@ -47,6 +47,43 @@ Theorem C04_modes_agree_with_depth_first :
 Proof. exact modes_agree_with_depth_first. Qed.
 Print Assumptions C04_modes_agree_with_depth_first.
 
+(* ---- without termination hypotheses (C03/ProofsTermination.v): EVERY strategy
+   (any function of the state, not only the three documented ones) empties the
+   worklist within bound P Q = |Q| + 2|P| + number of body literals steps *)
+Theorem C04_strategy_terminates : forall (P : program) (Q : list atom) (f : strategy) (n : nat),
+  bound P Q <= n -> terminated (run_strategy P f n (init Q)).
+Proof. exact run_strategy_terminates. Qed.
+Print Assumptions C04_strategy_terminates.
+
+Theorem C04_strategies_agree_total : forall (P : program) (Q : list atom) (f1 f2 : strategy) (n1 n2 : nat),
+  bound P Q <= n1 -> bound P Q <= n2 ->
+  (forall a, In a (goals (run_strategy P f1 n1 (init Q))) <-> In a (goals (run_strategy P f2 n2 (init Q)))) /\
+  (forall c, In c (edges (run_strategy P f1 n1 (init Q))) <-> In c (edges (run_strategy P f2 n2 (init Q)))).
+Proof. exact strategies_agree_total. Qed.
+Print Assumptions C04_strategies_agree_total.
+
+(* with enough fuel every strategy computes exactly the relevant ground program *)
+Theorem C04_strategy_result_is_relevant_subprogram :
+  forall (P : program) (Q : list atom) (f : strategy) (n : nat), bound P Q <= n ->
+  (forall a, In a (goals (run_strategy P f n (init Q))) <-> reach P Q a) /\
+  (forall c, In c (edges (run_strategy P f n (init Q))) <-> (In c P /\ reach P Q (head c))).
+Proof. exact strategy_result_is_relevant_subprogram. Qed.
+Print Assumptions C04_strategy_result_is_relevant_subprogram.
+
+Theorem C04_modes_agree_with_depth_first_total :
+  forall (P : program) (Q : list atom) (f : strategy) (n1 n2 : nat),
+  bound P Q <= n1 -> bound P Q <= n2 ->
+  (forall a, In a (goals (run_strategy P depth_first n1 (init Q))) <-> In a (goals (run_strategy P f n2 (init Q)))) /\
+  (forall c, In c (edges (run_strategy P depth_first n1 (init Q))) <-> In c (edges (run_strategy P f n2 (init Q)))) /\
+  (forall U n m w a, wf_value U n m (edges (run_strategy P depth_first n1 (init Q))) w a
+                     = wf_value U n m (edges (run_strategy P f n2 (init Q))) w a) /\
+  (forall U n m W q, prob U n m (edges (run_strategy P depth_first n1 (init Q))) W q
+                     = prob U n m (edges (run_strategy P f n2 (init Q))) W q) /\
+  (has_neg_cycle (in_list (edges (run_strategy P depth_first n1 (init Q)))) <->
+   has_neg_cycle (in_list (edges (run_strategy P f n2 (init Q))))).
+Proof. exact modes_agree_with_depth_first_total. Qed.
+Print Assumptions C04_modes_agree_with_depth_first_total.
+
 (* ---- non-vacuity on the example program of C03 *)
 Definition exP : program :=
   [ mkClause 0 [Pos 1; Neg 4]; mkClause 1 [Pos 2]; mkClause 1 [Pos 3]; mkClause 2 [Pos 1];
@@ -63,3 +100,6 @@ Example C04_ex_orders_differ :
   map head (edges (run_strategy exP depth_first 40 (init [0]))) = [1; 1; 2; 4; 0] /\
   map head (edges (run_strategy exP (random_order ex_rnd) 40 (init [0]))) = [4; 2; 1; 1; 0].
 Proof. vm_compute. split; reflexivity. Qed.
+
+Example C04_ex_bound : bound exP [0] = 21.
+Proof. vm_compute. reflexivity. Qed.
